@@ -50,6 +50,19 @@ type Loaded struct {
 	Plain []*LPkg // by world index
 	Test  []*LPkg // by world index; nil if the package has no _test.go file
 	Disk  map[string][]byte
+	// ReadFaults: file name -> fault applied to every pass.ReadFile of it in
+	// checker-sim ("eio", "empty", "short:<n>", "edited:<new content>"). Used
+	// by the C19 pipeline leg; nil everywhere else.
+	ReadFaults map[string]string
+	// ReadLog records what the disk served (or that it failed) per reading action.
+	ReadLog []ReadEvent
+}
+
+type ReadEvent struct {
+	Action string
+	File   string
+	Data   []byte
+	Failed bool
 }
 
 func newInfo() *types.Info {
@@ -155,7 +168,15 @@ func (d Diag) Key() string {
 type Outcome struct {
 	Diags  map[string][]Diag   `json:"diags"`
 	Errors map[string][]string `json:"errors"`
+	// Actions[i] names the action that emitted the i-th diagnostic in emission
+	// order (before Normalise sorts Diags); only checker-sim fills it, only the
+	// C19 pipeline leg reads it via RawDiags.
+	Actions  []string `json:"-"`
+	RawDiags []Diag   `json:"-"`
 }
+
+// SimRoot returns the directory prefix of world files.
+func SimRoot() string { return simRoot }
 
 func NewOutcome() *Outcome {
 	return &Outcome{Diags: map[string][]Diag{}, Errors: map[string][]string{}}
